@@ -75,7 +75,7 @@ func init() {
 	rig.Register(&rig.Check{
 		ID:    "C14",
 		Floor: 100,
-		Rule: "case = seeded history of 14-40 steps over 4 local features x 1-4 counters x 4 callback functions x 2 peers: register (15% deliberate duplicates), register result callback, arrival {reply|result} x {matching, non-matching, repeated, missing reference} x " +
+		Rule: "case = seeded history of 14-40 steps over 4 local features x 1-4 counters x 4 callback functions x 2 peers: the counters are obtained at the start in a drawn way {made-up number; local feature X (A, B or S) reads through RequestRemoteData from peer0 AND peer1 in drawn order - identical numbering of the two connections, both requests return the same counter; X reads from one peer and another local feature from the other one; X reads from one peer only}; register (every third callback is a method value of a handler object, the others closures; 15% deliberate duplicates: the same func value, or - every second one - the same callback as a func value that came about anew: the method value of the same object evaluated again / the same literal over the same captured state built again), register result callback, arrival {reply|result} x {matching, non-matching, repeated, missing reference} x " +
 			"{own, foreign function} x {wire, direct HandleMessage for the missing reference}; accepted replies carry a full list of 1-3 items or, once the cache of the answering feature holds 2-3 items, every second time a restricted data set (partial list, partial item + selector, delete selector) and the callback must see the data set of that reply; every third acceptable reply for a feature whose cache holds a known full data set REPEATS that data set verbatim (same function, same items; polling unchanged data) for a counter with 1-2 registered callbacks, which must fire exactly once with that data; " +
 			"a third, bystander peer is disconnected/reconnected (or announces the removal of its entity and adds it again) at 8% of the steps (and is disconnected concurrently with every third racing arrival); every third case additionally races registrations against the arrival of a matching message (each followed by a second matching message) and registers 2-6 callbacks for one counter concurrently (different functions and one function value from several goroutines, followed by a matching and a repeated message). " +
 			"A case is non-trivial if at least one callback invocation, one refused duplicate registration (or one concurrent registration duel) and one arrival that must not fire anything were judged; distinct = distinct step-shape sequences (hash; payload values excluded). " +
@@ -86,6 +86,8 @@ func init() {
 		Assumptions: []string{
 			"acceptance of a reply is predicted as in C01: the function belongs to the type of the source feature and the payload is a plain full list",
 			"callbacks are keyed by local feature and counter only (the statement names no peer): a message of either peer referencing the counter consumes the registration, and the callback must then see that peer's feature",
+			"the same callback = the same func value, the same method of the same object (method value evaluated anew for each registration) or the same function literal over the same captured variables (closure built anew by the same code): all three denote one callback and a second registration for the counter must be refused (the unchanged stack compares code pointers and refuses all three). Two closures of one literal over DIFFERENT state are never registered for one counter (the statement does not say whether they are 'the same')",
+			"where a counter comes from (made up, returned by a request of this feature to one or to both identically numbered peers, returned by a request of another feature) changes nothing in what the statement promises for a registration: the first accepted reply / result referencing the counter that arrives at the feature serves it, with that message's data and remote feature",
 			"a result without error number is not generated (malformed; the statement is silent)",
 			"'the received data' of a reply is the data set that reply carries (as decoded), also when the reply carries a partial or delete filter: not the content of the cache after the reply was merged into it",
 			"the statement names no disconnects: what it promises for a counter holds whatever other peers do, so the disconnect of a bystander peer (one that was sent no request) must not cancel any registration",
@@ -189,6 +191,7 @@ type c14Reg struct {
 	id, feat, fn int
 	ctr          model.MsgCounterType
 	f            func(api.ResponseMessage)
+	h            *c14H // set if the callback is a method value of a handler object
 	racing       bool
 	acrossDrop   bool // was pending when the bystander peer was disconnected
 }
@@ -222,6 +225,8 @@ type c14World struct {
 	byDrops  int
 	partials int
 	optional map[string]int // see settle
+	// where the counters of the history come from (x_c14req.go)
+	prov map[model.MsgCounterType]*c14Prov
 }
 
 func c14PeerFeats() []rig.FS {
@@ -358,21 +363,46 @@ func (cw *c14World) register(feat int, ctr model.MsgCounterType, fn int) (dup bo
 	}
 	cw.nextReg++
 	rg := &c14Reg{id: cw.nextReg, feat: feat, fn: fn, ctr: ctr}
-	rg.f = c14Fns[fn](cw.log, rg.id)
+	how := "closure"
+	if cw.c.Rand.Intn(3) == 0 {
+		// a method value of a handler object
+		rg.h = &c14H{l: cw.log, reg: rg.id}
+		rg.f = rg.h.fn(fn)
+		how = "method-value"
+	} else {
+		rg.f = c14Fns[fn](cw.log, rg.id)
+	}
 	if dup {
-		// the SAME function value again
+		// the SAME callback again: the same func value, or - as code that registers a method of an object or builds its
+		// closure where it registers it does - a func value that came about anew for the same callback (same method of the
+		// same object / same function literal over the same captured state)
 		for _, old := range cw.pending[feat][ctr] {
 			if old.fn == fn {
-				rg.f = old.f
+				rg.f, rg.h = old.f, old.h
+				how = "same-func-value"
+				if cw.c.Rand.Intn(2) == 0 {
+					if old.h != nil {
+						rg.f = old.h.fn(fn)
+						how = "method-value-of-the-same-object-evaluated-anew"
+					} else {
+						rg.f = c14Fns[fn](cw.log, old.id)
+						how = "closure-built-anew-by-the-same-code-over-the-same-state"
+					}
+				}
+				break
 			}
 		}
+		cw.c.Count("duplicate-registrations:"+how, 1)
+		cw.c.Seen("duplicate_kinds", how)
+	} else {
+		cw.c.Count("registrations:"+how, 1)
 	}
 	err := cw.feats[feat].AddResponseCallback(ctr, rg.f)
 	cw.c.Events(1)
-	cw.logf("register #%d on %s counter %d function F%d (duplicate=%v) -> err=%v", rg.id, cw.names[feat], ctr, fn, dup, err)
+	cw.logf("register #%d on %s counter %d function F%d as %s (duplicate=%v) -> err=%v", rg.id, cw.names[feat], ctr, fn, how, dup, err)
 	switch {
 	case dup && err == nil:
-		cw.viol("register/same-callback-twice-accepted", "the same function value was registered twice on %s for counter %d without an error", cw.names[feat], ctr)
+		cw.viol("register/same-callback-twice-accepted", "the same callback (%s) was registered twice on %s for counter %d without an error", how, cw.names[feat], ctr)
 		cw.pending[feat][ctr] = append(cw.pending[feat][ctr], rg) // the stack holds it twice now
 	case !dup && err != nil:
 		cw.viol("register/different-callback-refused", "registration of F%d on %s for counter %d was refused (%v); pending there: %s", fn, cw.names[feat], ctr, err, cw.pendingStr(feat, ctr))
@@ -693,6 +723,7 @@ func (cw *c14World) due(a c14Arrival) (want []c14Inv) {
 	}
 	if len(cw.pending[a.feat][*a.ref]) > 0 {
 		cw.consumed[a.feat][*a.ref] = true
+		cw.noteServed(a.feat, *a.ref, a.peer)
 	}
 	delete(cw.pending[a.feat], *a.ref)
 	if a.kind == "result" {
@@ -903,7 +934,8 @@ func c14Run(c *rig.Ctx, racing bool) {
 		cw.w.Close()
 	}()
 	r := c.Rand
-	ctrs := []model.MsgCounterType{7, 8, 9, 10}[:1+r.Intn(4)]
+	// the counters of the history: mostly what requests of the local features to the two peers returned (x_c14req.go)
+	ctrs := cw.obtainCounters(1 + r.Intn(4))
 	steps := 14 + r.Intn(c.Pick(20, 27))
 	var fired int64
 	defer func() {
